@@ -1445,6 +1445,10 @@ impl<'de, R: Read<'de>> Parser<R> {
         let f: f64 = unsafe { str::from_utf8_unchecked(&self.scratch) }
             .parse()
             .map_err(|_| self.error(ErrorCode::NumberOutOfRange))?;
+        // The standard library parser returns infinity instead of an error.
+        if f.is_infinite() {
+            return Err(self.error(ErrorCode::NumberOutOfRange));
+        }
         if !pos {
             return Ok(f * -1.0);
         }
